@@ -33,6 +33,7 @@ MUTABLE_ARGS = {
     "smoothing": lambda rng: dict(operator=str(rng.choice(["konno_and_ohmachi", "log_rectangular"])),
                                   bandwidth=float(rng.choice([40.0, 0.1])) if True else 0,
                                   center_frequencies_in_hz=np.geomspace(0.5, 20, int(rng.choice([8, 12])))),
+    "fft_settings": lambda rng: [dict(norm="ortho"), dict(n=1024), dict(n=2048, norm="backward")][rng.randint(3)],
     "azimuths_in_degrees": lambda rng: (np.arange(0, 180, int(rng.choice([45, 60]))) if rng.rand() < 0.5
                                         else [0.0, 30.0, 90.0]),
 }
@@ -125,10 +126,83 @@ class Driver:
         amp = r.amplitude if not isinstance(r.amplitude, list) else np.concatenate(r.amplitude)
         return heaplog.dg(np.asarray(amp))
 
+    # ---- explicit steps for the scripted histories (same logging as the random driver) ----
+    def construct(self, c, **argvals):
+        cls = getattr(self.h, c)
+        users = {}
+        for p, val in argvals.items():
+            u = self.nid("u")
+
+            def fu(u=u, val=val, p=p):
+                self.live[u], self.kind[u] = val, f"user:{p}"
+                self.w.add(u, "user", lambda val=val: [(val, val, True)])
+            self.log("User", {}, [u], fu)
+            users[p] = u
+        o = self.nid("s")
+
+        def f():
+            obj = cls(**{p: self.live[u] for p, u in users.items()})
+            self.live[o], self.kind[o] = obj, "set"
+            self.w.add(o, f"set:{c}", set_slots(obj))
+        attrs = cls().attrs
+        self.log("Construct", dict(o=o, pristine=f"p_{c}"), [o], f, args=[[2 * attrs.index(p) + 1, u] for p, u in users.items()])
+        return o
+
+    def save(self, o):
+        obj = self.live[o]
+        fid = self.nid("f")
+        fn = os.path.join(self.wd, f"{fid}.json")
+
+        def f():
+            obj.save(fn)
+            self.live[fid], self.kind[fid] = fn, "file"
+            self.saved_from[fid] = (o, copy.deepcopy(obj))
+            self.w.add(fid, "file", file_slots(fn))
+        self.log("Save", dict(o=o, f=fid), [fid], f)
+        return fid
+
+    def load_onto(self, o, fid):
+        obj, snap = self.live[o], self.saved_from[fid][1]
+
+        def f():
+            obj.load(self.live[fid])
+            return dict(procSame=bool(self.proc_digest(obj) == self.proc_digest(snap)))
+        self.log("LoadOnto", dict(f=fid, o=o), [], f)
+
+    def process(self, o):
+        obj = self.live[o]
+        k = obj.attrs.index("fft_settings")
+
+        def f():
+            with warnings.catch_warnings():
+                warnings.simplefilter("ignore")
+                self.h.process(copy.deepcopy(self.recs), obj)
+        self.log("Process", dict(o=o), [], f, slots=[2 * k + 1, 2 * k + 2])
+
+    def scripted(self, c, variant):
+        """load onto an object whose dictionaries hold keys the file lacks (and the other way round)"""
+        if variant == 0:      # the target was used for processing (FFT length stored), the file carries other keys only
+            s1 = self.construct(c, fft_settings=dict(norm="ortho"))
+            f1 = self.save(s1)
+            s2 = self.construct(c)
+            self.process(s2)
+            self.load_onto(s2, f1)
+            f2 = self.save(s2)
+            self.load_onto(s1, f2)
+        else:                 # explicit dictionaries with disjoint keys, both directions; then a file with fft_settings = null
+            s1 = self.construct(c, fft_settings=dict(n=1024))
+            s2 = self.construct(c, fft_settings=dict(norm="backward"))
+            s3 = self.construct(c)
+            f1, f2, f3 = self.save(s1), self.save(s2), self.save(s3)
+            self.load_onto(s2, f1)
+            self.load_onto(s1, f2)
+            self.load_onto(s1, f3)
+            self.load_onto(s3, f1)
+
     def step(self, op=None):
         h, rng = self.h, self.rng
         sets = [i for i, k in self.kind.items() if k == "set"]
-        ops = ["Construct"] * 4 + ["Mutate"] * 4 + ["Assign"] * 2 + ["Save"] * 3 + ["Load"] * 3 + ["Process"]
+        ops = ["Construct"] * 4 + ["Mutate"] * 4 + ["Assign"] * 2 + ["Save"] * 3 + ["Load"] * 3 + ["LoadOnto"] * 2 + ["Process"] * 2
         op = op or ops[rng.randint(len(ops))]
         if op == "Construct" or not sets:
             c = CLASSES[rng.randint(len(CLASSES))]
@@ -237,6 +311,18 @@ class Driver:
                     self.kind[srcid] = "snap"
                 self.log("Pristine", {}, [srcid], fs)
             return self.log("Load", dict(f=fid, o=d, src=srcid), [d], f, how=how)
+        if op == "LoadOnto":
+            # obj.load(file) on an EXISTING object with a history of its own: afterwards it holds the file's content, no more, no less
+            files = [i for i, k in self.kind.items() if k == "file" and type(self.saved_from[i][1]) is type(obj)]
+            if not files:
+                return
+            fid = files[rng.randint(len(files))]
+            snap = self.saved_from[fid][1]
+
+            def f():
+                obj.load(self.live[fid])
+                return dict(procSame=bool(self.proc_digest(obj) == self.proc_digest(snap)))
+            return self.log("LoadOnto", dict(f=fid, o=o), [], f)
         if op == "Process":
             if not hasattr(obj, "processing_method"):
                 return
@@ -274,6 +360,18 @@ def main():
             run.violation(f"settings:{op}:raised", f"history {ti+1}: {op} roles={roles} raised {msg} after {[e['op'] for e in d.events]}",
                           dict(kind="settings-raise", ops=[e["op"] for e in d.events]))
         traces.append(dict(ev=d.events))
+    # scripted histories: obj.load(file) onto objects whose dictionaries hold keys the file lacks
+    procs = [c for c in CLASSES if hasattr(getattr(h, c)(), "processing_method")]
+    for ci, c in enumerate(procs):
+        for variant in ((0, 1) if not run.quick else ((ci + run.seed) % 2,)):
+            d = Driver(h, rng, wd, recs)
+            d.pristine()
+            d.scripted(c, variant)
+            if d.failed:
+                op, roles, msg = d.failed
+                run.violation(f"settings:{op}:raised", f"scripted history ({c}, variant {variant}): {op} roles={roles} raised {msg}",
+                              dict(kind="settings-raise", ops=[e["op"] for e in d.events]))
+            traces.append(dict(ev=d.events))
     acc, res = heaplog.validate("TraceSettingsHeap", traces, "trace-C15", timeout=3000)
     run.add_tlc(res, "TraceSettingsHeap: every recorded step against the storage/content rules")
     run.traces += len(traces)
@@ -288,7 +386,7 @@ def main():
             k = heaplog.diagnose("TraceSettingsHeap", tr, "trace-C15") if nd < 8 else 0
             e = tr["ev"][min(k, len(tr["ev"])) - 1] if k else dict(op="undiagnosed", roles={}, post={})
             cls = ""
-            if e["op"] in ("Construct", "Load"):
+            if e["op"] in ("Construct", "Load", "LoadOnto"):
                 cls = ":" + e["post"].get(e["roles"].get("o"), {}).get("kind", "?")
             run.violation(f"settings:{e['op']}{cls}",
                           f"history {i}: step {k} {e['op']} roles={e['roles']} {({k_: v for k_, v in e.items() if k_ in ('args', 'slots', 'how', 'procSame')})} "
@@ -310,7 +408,7 @@ def main():
     return run.finish(
         rule="seeded random histories over the eight settings classes (construct with default / caller-owned / reused arguments, "
              "in-place mutation of lists, dicts and nested arrays, assignment, save by either API, load directly and through the "
-             "dispatching reader, process), every step validated by TLC; non-trivial = history of >= 6 steps",
+             "dispatching reader, load onto an existing object with a history of its own, process), every step validated by TLC; non-trivial = history of >= 6 steps",
         exhaustive=False)
 
 
